@@ -192,6 +192,25 @@ def simStep (H : Bytes → Str) (reps : Array SimRep) (line : JVal) : Array SimR
              | .ok (d', _) => finishD d' []
              | x => finish st (S "delete: model " ++ classOf x))
           | none => (reps, S "MISMATCH delete without uuid")
+        else if prim = S "objapi" then
+          -- direct calls of create_object / update_object / remove_object
+          match (objGet (S "call") o).bind JVal.asStr?, (objGet (S "uuid") o).bind JVal.asStr? with
+          | some call, some u =>
+            let body := ((objGet (S "obj") o).bind JVal.asObj?).getD []
+            let r : Res (DState × Option Str) :=
+              if call = S "create" then DState.createObject H rep.d u body
+              else if call = S "update" then DState.updateObject H src rep.d u body
+              else DState.removeObject H rep.d u
+            let ret := fun (x : Option Str) => match x with | some s => jstr s | none => JVal.null
+            (match r with
+             | .ok (d', rv) =>
+               let mineR : Str := (ret rv).render
+               let implR : Str := ((objGet (S "ret") o).getD JVal.null).render
+               let e : Str := if (mineR == implR) = true then [] else S "returned revision differs: model " ++ mineR
+               finishD d' (expectRes true ++ e)
+             | .err _ => finish st (expectRes false)
+             | .panic _ => finish st (if res = S "panic" then [] else S "objapi: model panics, impl " ++ res))
+          | _, _ => (reps, S "MISMATCH objapi without call/uuid")
         else if prim = S "resolve" then
           match (objGet (S "uuid") o).bind JVal.asStr?, (objGet (S "rev") o).bind JVal.asStr? with
           | some u, some rv =>
